@@ -42,7 +42,8 @@ ASSUMPTIONS = [
 REQUIRED = [
     'directed_cases', 'trees', 'histories', 'hist_fn_bound_128', 'hist_obj_bound_1024', 'hist_reduced_bound',
     'value_checks', 'counter_checks', 'cache_info_checks', 'object_info_checks',
-    'lru_invariant_checks', 'lru_order_checks', 'identity_checks', 'pickle_roundtrips',
+    'lru_invariant_checks', 'lru_order_checks', 'identity_checks',
+    'identity_same_generation', 'pickle_roundtrips',
     'pickle_eq_checks', 'deref_checks', 'missing_error_checks', 'both_flags_rejected',
     'predicted_hits', 'predicted_misses', 'predicted_evictions_fn',
     'predicted_evictions_obj', 'lru_direct_ops', 'evaluations_counted',
@@ -60,9 +61,9 @@ def plan(tier, seed):
     hist = [('hist_fn', 6, 5), ('hist_obj', 4, 3), ('hist_small', 6, 9)]
     lru = (2, 150)
   else:
-    tree_chunks, per_tree = 24, 2500
-    hist = [('hist_fn', 16, 24), ('hist_obj', 16, 10), ('hist_small', 16, 60)]
-    lru = (8, 1500)
+    tree_chunks, per_tree = 32, 12000
+    hist = [('hist_fn', 16, 120), ('hist_obj', 16, 50), ('hist_small', 16, 360)]
+    lru = (8, 5000)
   for i in range(tree_chunks):
     specs.append({'mode': 'tree', 'index': i, 'count': per_tree, 'rseed': seed})
   for kind, chunks, per in hist:
@@ -549,14 +550,20 @@ def _run_ops(ctx, lazy_fns, lib, M, model, pool, ops, fn_lru, obj_lru, state,
         if name in ('make', 'use_ref') and node[0] in ('call', 'callres') and node[4]:
           key = M.skey(node, model.slot_serial)
           ctx.count('identity_checks')
+          # The entry may have been evicted and re-inserted by a nested evaluation of
+          # the same call since it was last seen at root level: compare identity only
+          # within one insertion (generation) of the reference LRU.
+          generation = model.generation.get(key)
           if model.last_root_hit:
             ctx.count('predicted_hits')
-            if key in root_real and got is not root_real[key]:
-              raise _Fail('cached_result_not_identical',
-                          {'got': repr(got)[:200]}, mech + '/identity')
+            if key in root_real and root_real[key][0] == generation:
+              ctx.count('identity_same_generation')
+              if got is not root_real[key][1]:
+                raise _Fail('cached_result_not_identical',
+                            {'got': repr(got)[:200]}, mech + '/identity')
           else:
             ctx.count('predicted_misses')
-          root_real[key] = got
+          root_real[key] = (generation, got)
       if expect_new_slot:
         if rres[0] == 'ok' and mres[0] == 'ok':
           refs.append(rres[1])
